@@ -52,6 +52,17 @@ BREAKING = [
     ('c06-fence-range', ['C06'], [(A, "    if pred < 0b0000 or pred > 0b1111:", "    if pred < 0b0000 or pred > 0b11111:")]),
     ('c06-ciu-window', ['C06', 'C02'], [(A, "    if imm >= 0xfffe0 and imm <= 0xfffff:", "    if imm >= 0xffff0 and imm <= 0xfffff:")]),
     ('c06-cia-mult', ['C06', 'C02'], [(A, "    if imm % 16 != 0:", "    if imm % 8 != 0:")]),
+    # ---- C07 --------------------------------------------------------------------------------------------------
+    ('c07-hi-bit', ['C07'], [(A, "    if imm & 0x800:\n        imm += 2**12", "    if imm & 0x400:\n        imm += 2**12")]),
+    ('c07-hi-mask', ['C07'], [(A, "return sign_extend((imm >> 12) & 0x000fffff, 20)", "return sign_extend((imm >> 12) & 0x0007ffff, 20)")]),
+    ('c07-signext-bits', ['C07'], [(A, "    sign_bit = 1 << (bits - 1)", "    sign_bit = 1 << bits")]),
+    ('c07-lo-mask', ['C07'], [(A, "return sign_extend(imm & 0x00000fff, 12)", "return sign_extend(imm & 0x000007ff, 12)")]),
+    ('c07-lo-width', ['C07'], [(A, "return sign_extend(imm & 0x00000fff, 12)", "return sign_extend(imm & 0x00001fff, 13)")]),
+    ('c07-no-carry', ['C07'], [(A, "    if imm & 0x800:\n        imm += 2**12\n", "")]),
+    ('c07-carry-13', ['C07'], [(A, "        imm += 2**12", "        imm += 2**13")]),
+    ('c07-parse-swap', ['C07'], [(A, "        return Hi(parse_immediate(imm, line))", "        return Lo(parse_immediate(imm, line))")]),
+    ('c07-hi-eval', ['C07'], [(A, "        value = self.expr.eval(position, env, line)\n        return relocate_hi(value)", "        value = self.expr.eval(position, env, line)\n        return relocate_lo(value)")]),
+    ('c07-shift-11', ['C07'], [(A, "return sign_extend((imm >> 12) & 0x000fffff, 20)", "return sign_extend((imm >> 11) & 0x000fffff, 20)")]),
 ]
 
 PRESERVING = [
@@ -66,4 +77,7 @@ PRESERVING = [
                                  (A, "    imm = c_uint32(imm).value & 0b111111111111\n\n    code = 0\n    code |= opcode\n    code |= rd << 7\n    code |= funct3 << 12\n    code |= rs1 << 15\n    code |= imm << 20\n\n    return code\n\n\n# i-type variation",
                                   "    imm = c_uint32(imm).value & TWELVE_BITS\n\n    code = 0\n    code |= opcode\n    code |= rd << 7\n    code |= funct3 << 12\n    code |= rs1 << 15\n    code |= imm << 20\n\n    return code\n\n\n# i-type variation")]),
     ('p-comment-churn', None, [(A, "# low-level funcs just return value errors", "# low-level functions only raise ValueError\n#\n# (reformatted comment block)")]),
+    ('p-hi-carry-2048', None, [(A, "        imm += 2**12", "        imm += 2**11")]),
+    ('p-hi-carry-hex', None, [(A, "        imm += 2**12", "        imm = imm + 0x1000")]),
+    ('p-signext-spelling', None, [(A, "    return (value & (sign_bit - 1)) - (value & sign_bit)", "    low = value & (sign_bit - 1)\n    top = value & sign_bit\n    return low - top")]),
 ]
